@@ -95,7 +95,8 @@ class MakeFilename(object):
         self._methods = methods
 
     def _set_context(self, context):
-        self._context = context
+        # later elements of the sequence can change the context in place
+        self._context = deepcopy(context)
 
     def __call__(self, value):
         """Add *output* keys to the *value*'s context.
